@@ -31,10 +31,32 @@ whitespace context of every `Match.parse` call of that run is recorded (a record
   the rule modifiers as written are sent to `Peg.ruleMods` (mirror of `visit_rule_param` / `visit_rule_params`,
   `Peg/WsParam.lean`): skipws / ws of the compiled rule node must equal the model's.
 
+Set-up beyond one grammar string (added after the seeded changes C22-5 / C22-6):
+
+* the grammar may be spread over a main file and up to two imported files (packages, an import of an import),
+  loaded with `metamodel_from_file`; every file has a Comment rule of its own or none (regex, alias `Comment: X;`,
+  choice of two rules; different files use different comment syntaxes).  "The grammar's Comment rule" is decided
+  from the documented search order (current file first, then the imported files in the order of import); text
+  matched only by another file's Comment rule is inserted too and must not be skipped (sentence 2);
+* a case lists the meta-models created in the same process before (`history`) and after (`later`) the one under
+  test — the same grammar under another configuration or an unrelated one, with memoization / skipws / ws /
+  ignore_case / autokwd options; `reset_process_state` puts the module-level state of textX / Arpeggio back before
+  every case, so a case (and its replay) sees exactly the history it lists;
+* `add_clash`: two alternatives with different whitespace modes (noskipws / ws= / inherited) that reach one
+  non-terminal sub-rule at the same position — whatever a parser keeps per position is filled under one mode and
+  consulted under the other;
+* correspondence: `Peg.commentOwner` (lookup of `Comment` through the namespaces, `Peg/Setup.lean`) vs the file
+  whose Comment rule *is* the parser's comments model; `Peg.parserCfgAfter` (configuration of the parser after a
+  history) vs skipws / ws / memoization of the real parser.
+
 Known finding (Arpeggio, dependency): `comment_positions` is keyed by position only.  Classifier: the
 failure disappears when the real parser is re-run with the cache key extended by (skipws, ws).
 """
+import copy as _copy
+import os
 import re
+import shutil
+import tempfile
 
 from harness.core import Check, Rng, use_repo
 from harness import gen_grammar as G
@@ -51,6 +73,79 @@ CFGS = [{}, {}, {}, {"ws": " "}, {"ws": " \t\n"}, {"skipws": False}, {"ws": "\n 
 MAX_VARIANTS = 7
 MAX_SWEEP = 5
 KF_ID = "C22-comment-cache-ignores-ws-context"
+
+# ---------------------------------------------------------------------------------------------------
+# process state (a case is observed after exactly the history of meta-models it lists itself)
+# ---------------------------------------------------------------------------------------------------
+_PRISTINE = None
+_PLAINT = (int, bool, str, float, type(None), tuple, frozenset, bytes)
+
+
+def _state_cells():
+    """(owner, owner name, attribute, value) for every module-level and class-level attribute of the textX and
+    Arpeggio modules that holds plain data (dict / list / set, numbers, strings, tuples, None) or a functools cache"""
+    import sys as _sys
+
+    out = []
+    for mname, mod in sorted(_sys.modules.items()):
+        if mod is None or not (mname == "textx" or mname.startswith("textx.") or mname == "arpeggio"
+                               or mname.startswith("arpeggio.")):
+            continue
+        for k, v in list(vars(mod).items()):
+            if k.startswith("__"):
+                continue
+            if type(v) in (dict, list, set) or type(v) in _PLAINT or (
+                    hasattr(v, "cache_clear") and getattr(v, "__module__", None) == mname):
+                out.append((mod, mname, k, v))
+            elif isinstance(v, type) and getattr(v, "__module__", None) == mname:
+                for ck, cv in list(vars(v).items()):
+                    if not ck.startswith("__") and (type(cv) in (dict, list, set) or type(cv) in _PLAINT):
+                        out.append((v, f"{mname}.{v.__name__}", ck, cv))
+    return out
+
+
+def reset_process_state():
+    """Bring the module-level / class-level plain state of the textX and Arpeggio modules (e.g. `lang.textX_parsers`,
+    the cache of grammar parsers), functools caches and the regex cache back to what they were when the code under
+    test had just been imported (same technique as the C20 / C05 checks).  What earlier cases of the same worker
+    process left behind neither masks nor fakes a failure, and a replay (fresh process) sees what the run saw."""
+    global _PRISTINE
+    use_repo()
+    import arpeggio  # noqa: F401
+    import textx  # noqa: F401
+    import textx.lang  # noqa: F401
+    import textx.metamodel  # noqa: F401
+    import textx.model  # noqa: F401
+    import textx.scoping  # noqa: F401
+
+    re.purge()
+    cells = _state_cells()
+    if _PRISTINE is None:
+        _PRISTINE = {}
+        for owner, oname, k, v in cells:
+            if not hasattr(v, "cache_clear"):
+                _PRISTINE[(oname, k)] = (v, _copy.copy(v))
+        return
+    for owner, oname, k, v in cells:
+        if hasattr(v, "cache_clear"):
+            v.cache_clear()
+            continue
+        ref = _PRISTINE.get((oname, k))
+        if ref is None:
+            continue
+        saved = ref[1]
+        if type(saved) in _PLAINT:
+            if type(v) is not type(saved) or v != saved:
+                setattr(owner, k, saved)
+            continue
+        if ref[0] is not v or v == saved:
+            continue
+        if type(v) is list:
+            v[:] = saved
+        else:
+            v.clear()
+            v.update(saved)
+
 
 # ---------------------------------------------------------------------------------------------------
 # recording wrapper around Match.parse (harness process only; calls the original code)
@@ -204,6 +299,236 @@ def respell(g, rng):
                 p["ws_first"] = True
 
 
+# ---------------------------------------------------------------------------------------------------
+# grammars over several files (`import`), the Comment rule in force, ways of writing the Comment rule
+# ---------------------------------------------------------------------------------------------------
+IMPORT_NAMES = [("base", "common"), ("lib.base", "lib.common"), ("base", "lib.common"), ("lib.base", "common"),
+                ("lib.base", "lib.sub.common")]
+BASE_RULES = ["ID", "STRING", "BOOL", "INT", "FLOAT", "STRICTFLOAT", "NUMBER", "BASETYPE", "OBJECT"]
+
+
+def expr_refs(e, acc):
+    if e["k"] == "ref":
+        acc.add(e["name"])
+    for x in e.get("xs", []):
+        expr_refs(x, acc)
+    for key in ("x", "rhs", "sep"):
+        if isinstance(e.get(key), dict):
+            expr_refs(e[key], acc)
+    return acc
+
+
+def comment_samples_of(regexes):
+    return [smp for rx in regexes for smp in G.COMMENT_SAMPLES[rx]]
+
+
+def render_comment(kind, regexes, tag):
+    """the Comment rule of one grammar file: a regex match, a plain reference to another rule (alias), or an
+    ordered choice of two rules; the helper rules get names that are unique over the files of the grammar"""
+    if kind == "alias":
+        return f"Comment: Cmt{tag};\nCmt{tag}: /{regexes[0]}/;\n"
+    if kind == "alts":
+        return f"Comment: Cmt{tag}a | Cmt{tag}b;\nCmt{tag}a: /{regexes[0]}/;\nCmt{tag}b: /{regexes[1]}/;\n"
+    return f"Comment: /{regexes[0]}/;\n"
+
+
+def relative_import(importer, target):
+    """how `target` (dotted name relative to the root directory) is written in an import statement of `importer`:
+    names are relative to the directory of the importing file (`_new_import`); None if not expressible"""
+    if "." not in importer:
+        return target
+    pkg = importer.rsplit(".", 1)[0] + "."
+    return target[len(pkg):] if target.startswith(pkg) else None
+
+
+def layout_files(g, rng, focus=False):
+    """Distribute the rules of `g` over a main grammar file and up to two imported files, give every file its own
+    Comment rule or none, and decide how the grammar is loaded.  Returns the fields of the case that describe it:
+
+      grammar      text of the main grammar (the first rule is the model's top rule)
+      imports      {dotted name: text} of the imported files ({}: single grammar)
+      from_file    loaded with metamodel_from_file (always with imports), else metamodel_from_str
+      files        [{"name", "defines": [rule names], "imports": [dotted names, in the order of import]}], main first
+      comment      regex of the Comment rule *in force*: rule references are searched for in the current file first
+                   and then in the imported files in the order of import (docs/grammar.md, Grammar modularization)
+      comment_samples, foreign (regexes of Comment rules of other files that are not in force)
+
+    The generator only references later rules, so contiguous segments of the rule list can be put into files that
+    import the files of later segments."""
+    rules = g["rules"]
+    n = len(rules)
+    nimp = rng.weighted([(0, 0 if focus else 14), (1, 3), (2, 3)])
+    from_file = nimp > 0 or rng.chance(0.12)
+    if from_file:
+        # a grammar file is read in text mode: Python's universal-newline translation turns a carriage return
+        # written literally into a line feed before textX sees it; in files the character is written as `\r`
+        for r in rules:
+            if "\r" in r["params"].get("ws", ""):
+                r["params"]["ws"] = r["params"]["ws"].replace("\r", "\\r")
+    # a file cannot use rules of a file that imports it: cut only where no later rule refers back ('(' Model ')' ...);
+    # a cut behind the last rule (an imported file with nothing but its Comment rule) is always possible
+    index = {r["name"]: i for i, r in enumerate(rules)}
+    back = [min([index[nm] for nm in expr_refs(r["body"], set()) if nm in index] + [i]) for i, r in enumerate(rules)]
+    valid = [c for c in range(1, n + 1) if all(b >= c for b in back[c:])]
+    cuts = sorted(rng.choice(valid) for _ in range(nimp))
+    bounds = [0] + cuts + [n]
+    segs = [rules[a:b] for a, b in zip(bounds, bounds[1:])]
+    names = ["main"] + list(rng.choice(IMPORT_NAMES))[:nimp]
+    where = {r["name"]: i for i, seg in enumerate(segs) for r in seg}
+    need = [set() for _ in segs]
+    for i, seg in enumerate(segs):
+        for r in seg:
+            for nm in expr_refs(r["body"], set()):
+                if where.get(nm, i) != i:
+                    need[i].add(where[nm])
+    imports = [[] for _ in segs]
+    if nimp == 2 and (2 in need[1] or rng.chance(0.35)):
+        # the first imported file imports the second one (it must when its rules use rules of it)
+        if relative_import(names[1], names[2]) is None:
+            names[2] = names[1].rsplit(".", 1)[0] + ".common"
+        imports[1] = [2]
+    main_imps = [1] if nimp else []
+    if nimp == 2 and (2 in need[0] or not imports[1] or rng.chance(0.7)):
+        main_imps.append(2)
+    imports[0] = rng.shuffle(main_imps)
+    # Comment rules: main keeps what the base generator decided; every imported file has its own with p = 0.6;
+    # different files use different comment syntaxes
+    pool = rng.shuffle([rx for rx in G.COMMENTS if rx != g.get("comment")])
+    has = [bool(g.get("comment"))] + [rng.chance(0.85 if focus else 0.6) for _ in range(nimp)]
+    if focus and not has[0]:
+        has[0] = rng.chance(0.6)
+    prim = {}
+    for i in range(len(segs)):
+        if has[i]:
+            prim[i] = g["comment"] if (i == 0 and g.get("comment")) else pool.pop()
+    cdefs = {}
+    for i in sorted(prim):
+        kind = rng.weighted([("plain", 6), ("alias", 2), ("alts", 2 if pool and len(prim) < 3 else 0)])
+        regs = [prim[i]] + ([pool.pop()] if kind == "alts" else [])
+        cdefs[i] = (kind, regs)
+    texts, files = [], []
+    for i, seg in enumerate(segs):
+        head = "".join(f"import {relative_import(names[i], names[j])}\n" for j in imports[i])
+        body = G.render_grammar({"rules": seg, "comment": None}) if seg else ""
+        defines = [r["name"] for r in seg]
+        if i in cdefs:
+            kind, regs = cdefs[i]
+            tag = "MAB"[i]
+            body += render_comment(kind, regs, tag)
+            defines += ["Comment"] + {"plain": [], "alias": [f"Cmt{tag}"], "alts": [f"Cmt{tag}a", f"Cmt{tag}b"]}[kind]
+        if not body.strip():    # a grammar file needs at least one rule
+            body = f"Unused{i}: 'zz';\n"
+            defines.append(f"Unused{i}")
+        texts.append(head + body)
+        files.append({"name": names[i], "defines": defines, "imports": [names[j] for j in imports[i]]})
+    owner = next((i for i in [0] + imports[0] if i in cdefs), None)
+    inforce = cdefs[owner][1] if owner is not None else []
+    foreign = [rx for i, (_k, regs) in sorted(cdefs.items()) if i != owner for rx in regs if rx not in inforce]
+    return {"grammar": texts[0], "imports": {names[i]: texts[i] for i in range(1, len(segs))},
+            "from_file": from_file, "files": files,
+            "comment": "|".join(f"(?:{rx})" for rx in inforce) if len(inforce) > 1 else (inforce[0] if inforce else None),
+            "comment_samples": comment_samples_of(inforce), "comment_res": inforce, "foreign": foreign,
+            "comment_owner": names[owner] if owner is not None else None}
+
+
+# ---------------------------------------------------------------------------------------------------
+# one sub-rule reached at one input position under two whitespace modes (backtracking re-parses it)
+# ---------------------------------------------------------------------------------------------------
+CLASH_INNER = [".", ",", "::", "->"]
+CLASH_CONT = ["=", ":", "=>", ";", "kw", "<-"]
+CLASH_TOKS = [{"k": "ref", "name": "ID"}, {"k": "ref", "name": "INT"}, {"k": "re", "v": r"[a-c]+"},
+              {"k": "re", "v": r"\d+"}, {"k": "re", "v": r"[xy]"}]
+
+
+def add_clash(g, kinds, rng):
+    """`E: CA | CB;  CA[m1]: k=K 'x' v=INT;  CB[m2]: k=K 'y' v=INT;  K: t '.' t;` hooked into a common rule: the
+    alternatives reach the non-terminal rule `K` at the same position under different whitespace modes (one of
+    `noskipws`, a `ws=` set, the inherited mode).  Whatever the parser keeps per position (comment cache, memo
+    tables should a parser memoize) is filled under the mode of the first alternative and consulted under the
+    mode of the second one.  Returns False when the grammar has no common rule to hook it into."""
+    hosts = [r for r in g["rules"] if kinds.get(r["name"]) == "common"]
+    if not hosts:
+        return False
+    host = rng.choice(hosts)
+    inner = rng.choice(CLASH_INNER)
+    t1, t2 = dict(rng.choice(CLASH_TOKS)), dict(rng.choice(CLASH_TOKS))
+    step = {"k": "seq", "xs": [{"k": "str", "v": inner}, t2]}
+    if rng.chance(0.5):
+        kbody = {"k": "seq", "xs": [t1, {"k": "rep", "op": "*", "x": step, "sep": None, "eol": False}]}
+    else:
+        kbody = {"k": "seq", "xs": [t1] + step["xs"]}
+    ca, cb = rng.sample([c for c in CLASH_CONT if c != inner], 2)
+
+    def mode(which):
+        if which == "noskip":
+            return {"skipws": False}
+        if which == "ws":
+            return {"ws": ws_spelling(rng)}
+        if which == "skip":
+            return {"skipws": True}
+        return {}
+
+    m1, m2 = rng.choice([("noskip", None), (None, "noskip"), ("ws", None), (None, "ws"), ("noskip", "ws"),
+                         ("ws", "noskip"), ("ws", "ws"), ("skip", "noskip"), ("noskip", "skip")])
+
+    def alt(name, cont, m):
+        val = {"k": "ref", "name": rng.choice(["INT", "ID", "BOOL"])}
+        return {"name": name, "params": mode(m), "body": {"k": "seq", "xs": [
+            {"k": "asgn", "attr": "k", "op": "=", "rhs": {"k": "ref", "name": "KeyC"}, "sep": None, "eol": False},
+            {"k": "str", "v": cont},
+            {"k": "asgn", "attr": "v", "op": "=", "rhs": val, "sep": None, "eol": False}]}}
+
+    new = [{"name": "EntryC", "params": {}, "body": {"k": "alt", "xs": [{"k": "ref", "name": "TightC"},
+                                                                       {"k": "ref", "name": "LooseC"}]}},
+           alt("TightC", ca, m1), alt("LooseC", cb, m2),
+           {"name": "KeyC", "params": {}, "body": kbody}]
+    hook = {"k": "asgn", "attr": "clash", "op": rng.choice(["*=", "+=", "="]), "rhs": {"k": "ref", "name": "EntryC"},
+            "sep": None, "eol": False}
+    host["body"] = {"k": "seq", "xs": [host["body"], hook] if rng.chance(0.6) else [hook, host["body"]]}
+    g["rules"] += new
+    return True
+
+
+# ---------------------------------------------------------------------------------------------------
+# histories: meta-models created in the same process before (and after) the one under test
+# ---------------------------------------------------------------------------------------------------
+HIST_POOL = [
+    ("Sum: terms+=INT['+'];\n", "1 + 2 + 3"),
+    ("Model: a+=A | b=B;\nA[noskipws]: x=X 'c';\nB: x=X 'd';\nX: 'a' v='b';\nComment: /#.*$/;\n", "a b d # c"),
+    ("Doc[ws=' ']: lines+=Line;\nLine[skipws]: 'l' name=ID ';';\nComment: /\\/\\*(.|\\n)*?\\*\\//;\n", "l a ; /* c */ l b ;"),
+]
+
+
+def hist_cfg(rng, memo_p):
+    """configuration of a meta-model of the history: every parser option of metamodel_from_str / _from_file
+    (debug stays off: it writes dot files into the working directory)"""
+    c = {}
+    if rng.chance(memo_p):
+        c["memoization"] = True
+    if rng.chance(0.2):
+        c["skipws"] = False
+    if rng.chance(0.25):
+        c["ws"] = "".join(ws_chars(rng))
+    if rng.chance(0.15):
+        c["ignore_case"] = True
+    if rng.chance(0.15):
+        c["autokwd"] = True
+    return c
+
+
+def gen_steps(rng, k, texts, memo_p=0.5):
+    """k earlier / later meta-models: the grammar under test itself with another configuration (`same`) or an
+    unrelated one, each loading one text"""
+    out = []
+    for _ in range(k):
+        if rng.chance(0.5):
+            out.append({"same": True, "cfg": hist_cfg(rng, memo_p), "text": rng.choice(texts) if texts else ""})
+        else:
+            gr, t = rng.choice(HIST_POOL)
+            out.append({"grammar": gr, "cfg": hist_cfg(rng, memo_p), "text": t})
+    return out
+
+
 def base_mode(cfg):
     return (bool(cfg.get("skipws", True)), cfg.get("ws", DEFAULT_WS) or DEFAULT_WS)
 
@@ -240,7 +565,7 @@ class ModeDeriver(G.Deriver):
 
 def mode_layout(toks, rng, cfg, comment):
     """Join mode-tagged tokens with material that is skippable where it stands: characters of the set in force
-    for the token behind the gap (nothing under `noskipws`), now and then a comment."""
+    for the token behind the gap (nothing under `noskipws`), now and then a comment (`comment`: sample texts)."""
     out = ""
     eof_mode = base_mode(cfg)
     for i, (t, (skip, ws)) in enumerate(list(toks) + [("", eof_mode)]):
@@ -251,7 +576,7 @@ def mode_layout(toks, rng, cfg, comment):
             if c != "none":
                 sep = rng.choice(ws) + (rng.choice(ws) if c == "two" else "")
         if comment and rng.chance(0.12):
-            smp = rng.choice(G.COMMENT_SAMPLES[comment])
+            smp = rng.choice(comment)
             body = smp.rstrip("\n ")
             tail = smp[len(body):]
             # the line end / blank behind the comment must be skippable itself
@@ -263,7 +588,7 @@ def mode_layout(toks, rng, cfg, comment):
 
 def mode_texts(g, cfg, rng, n):
     d = ModeDeriver(g, rng, cfg)
-    return [mode_layout(d.tokens(), rng, cfg, g.get("comment")) for _ in range(n)]
+    return [mode_layout(d.tokens(), rng, cfg, comment_samples_of(G.comment_pool(g))) for _ in range(n)]
 
 
 def terminals_with_modes(tree, params, cfg):
@@ -362,15 +687,69 @@ def written_params(p):
     return items
 
 
-def build(case):
+# directory operations on the disk of this VM take ~40 ms each: the grammar files go to the RAM disk when there is one
+TMP_BASE = "/dev/shm" if os.path.isdir("/dev/shm") and os.access("/dev/shm", os.W_OK) else None
+
+
+def write_files(case, root):
+    """the grammar files of a case under `root`; returns the path of the main file"""
+    for name, text in (case.get("imports") or {}).items():
+        path = os.path.join(root, *name.split(".")) + ".tx"
+        os.makedirs(os.path.dirname(path), exist_ok=True)
+        with open(path, "w", newline="") as f:
+            f.write(text)
+    main = os.path.join(root, "main.tx")
+    with open(main, "w", newline="") as f:
+        f.write(case["grammar"])
+    return main
+
+
+def build(case, cfg=None):
+    """the meta-model of the case: from a string, or from files in a temporary directory (removed afterwards: the
+    files are read while the meta-model is built)"""
+    use_repo()
+    from textx import metamodel_from_file, metamodel_from_str
+
+    cfg = case["cfg"] if cfg is None else cfg
+    if not (case.get("from_file") or case.get("imports")):
+        return metamodel_from_str(case["grammar"], **cfg)
+    root = tempfile.mkdtemp(prefix="c22-", dir=TMP_BASE)
+    try:
+        return metamodel_from_file(write_files(case, root), **cfg)
+    finally:
+        shutil.rmtree(root, ignore_errors=True)
+
+
+def run_step(case, step):
+    """one meta-model of the history: built, one text loaded, forgotten; whatever it raises is its own business"""
     use_repo()
     from textx import metamodel_from_str
 
-    return metamodel_from_str(case["grammar"], **case["cfg"])
+    def go():
+        mm = build(case, step["cfg"]) if step.get("same") else metamodel_from_str(step["grammar"], **step["cfg"])
+        mm.model_from_str(step.get("text", ""))
+
+    try:
+        with_timeout(lambda: outcome(go), 5)
+    except Exception:
+        pass
 
 
-def eol_in_grammar(gtext):
-    return "eolterm" in gtext
+def comment_owner(mm, parser):
+    """name of the grammar file (namespace) whose Comment rule is the parser's comments model; None: no comments
+    model; "?": a comments model that is not the Comment rule of any file"""
+    cm = parser.comments_model
+    if cm is None:
+        return None
+    for ns_name, ns in mm.namespaces.items():
+        cls = ns.get("Comment")
+        if cls is not None and getattr(cls, "_tx_peg_rule", None) is cm:
+            return "main" if ns_name is None else ns_name
+    return "?"
+
+
+def eol_in_grammar(case):
+    return "eolterm" in case["grammar"] or any("eolterm" in t for t in (case.get("imports") or {}).values())
 
 
 class Prop(Check):
@@ -384,20 +763,28 @@ class Prop(Check):
         "Peg.C22_ws_param_denotes", "Peg.C22_ws_param_skip", "Peg.C22_ws_param_literal",
         "Peg.C22_tree_terminals_are_tokens", "Peg.C22_no_terminal_overlaps_gap", "Peg.C22_slice_extendGap",
         "Peg.C22_term_value_ext", "Peg.C22_build_shift", "Peg.C22_model_unchanged", "Peg.C22_ws_param_tx",
+        "Peg.C22_comment_own_first", "Peg.C22_comment_import_order", "Peg.C22_comment_none",
+        "Peg.C22_parser_cfg_history", "Peg.C22_default_cfg_no_memo",
     ]
     DRIVER = "Drivers/PegWs.lean"
     QUICK_CASES = 240
     THOROUGH_CASES = 6000
     CASE_TIMEOUT = 30
     RULE = ("generated grammars (common/abstract/match rules, all operators, separators, eolterm, predicates, suppression, "
-            "noskipws/skipws/ws= rule modifiers, Comment rule in ~45%; ws= sets: random subsets of blank/tab/CR/LF (+ rarely "
+            "noskipws/skipws/ws= rule modifiers, Comment rule in ~60%; 22%: two alternatives with different whitespace modes "
+            "sharing a non-terminal sub-rule; 30%: rules spread over a main file + 1-2 imported files (packages, import of an "
+            "import, import order), each file with its own Comment rule (regex / alias / choice of two; distinct syntaxes) or "
+            "none, 12% of the single grammars loaded from a file; 25% (75% with a mode clash): history of 1-2 meta-models "
+            "created before in the same process (same grammar or another one; memoization, skipws, ws, ignore_case, autokwd "
+            "options), 10%: a meta-model created afterwards; process state reset before every case; ws= sets: random subsets of blank/tab/CR/LF (+ rarely "
             "an unusual character, the empty set), written with escape sequences / literally / mixed, any order, repeated "
             "characters, single or double quotes, before or after the skipws flag) x metamodel ws/skipws options (fixed list "
             "+ random sets) x 4 texts (1-2 laid out mode-aware: separators from the set in force at each token; 1-2 with "
             "blank / random layout; 1 mutated); for the first 2 accepted texts: alphabet sweep (every character of every "
             "non-default set in force inserted at a site of that mode, 2 standard whitespace characters outside it, 1 in "
             "front of a noskipws terminal) + up to 7 variants: whitespace of the documented active set and "
-            "Comment text inserted at gap-extension sites (gap start / end / interior, input start / end), whitespace "
+            "Comment text inserted at gap-extension sites (gap start / end / interior, input start / end), text matched only by "
+            "the Comment rule of another file of the grammar (must not be skipped), whitespace "
             "outside the active set, and insertions at glued boundaries (mirror only); non-trivial = at least one "
             "in-hypothesis gap-extension variant of an accepted text was loaded and compared")
     MODELLED = ("hand-modelled: Arpeggio's interpreter incl. whitespace skipping, _parse_comments, comment_positions cache, "
@@ -406,20 +793,30 @@ class Prop(Check):
                 "the theorem's side conditions evaluated in Lean vs in the harness; token matching (str compare, re.match) "
                 "is an input table; textx/lang.py visit_rule_param / visit_rule_params (skipws / noskipws / ws= -> mode of the "
                 "rule) hand-modelled in Peg/WsParam.lean, tie X: modifiers as written -> Peg.ruleMods vs skipws / ws of the "
-                "compiled rule node, every rule with modifiers; the rest of lang.py (Comment wiring, promotion / wrapping) is "
-                "exercised through the compiled parser model and the documented-mode oracle, not modelled")
+                "compiled rule node, every rule with modifiers; Comment wiring (visit_textx_model + TextXMetaModel.__getitem__: current "
+                "file, base types, imported files in import order) and the parser options taken from the meta-model across a "
+                "history (language_from_str, textX_parsers cache) hand-modelled in Peg/Setup.lean, tie X: grammar files as "
+                "written -> Peg.commentOwner vs the file whose Comment rule is the parser's comments model, configurations of "
+                "the history -> Peg.parserCfgAfter vs skipws / ws / memoization of the parser, every case; the rest of lang.py "
+                "(promotion / wrapping) is exercised through the compiled parser model and the documented-mode oracle, not modelled")
     ASSUMPTIONS = [
         "token tables: the mirror takes re.match / string comparison results as input (LexicalGrammar = tokCompatB on them)",
         "C22_partial_ws covers memoization off and parser models all of whose modes skip the inserted characters; "
         "comment-text insertion (C22_partial_comment) is checked by the harness only",
         "documented mode of a terminal = metamodel skipws/ws overridden by the modifiers of the rules on its parse-tree "
         "path; eolterm's removal of end-of-line characters is not reconstructed (sentence-2 oracle allows them)",
+        "the grammar's Comment rule = the rule found by the documented search order (current file, then imported files in "
+        "the order of import; files imported by an imported file only are not searched); in grammar files a carriage "
+        "return of a ws value is written as \\r (text-mode reading translates a literal one)",
+        "histories: debug stays off (it writes dot files); the meta-model under test is never created with "
+        "memoization=True (Arpeggio's memo tables ignore the whitespace mode: C19's known finding "
+        "C19-memo-key-ignores-ws-context)",
         "documented set of ws='...' = the characters between the quotes with \\n \\r \\t decoded (own decoder); "
         "C22_ws_param_denotes assumes no literal backslash other than in these three escape sequences",
     ]
 
     # ---- generation ------------------------------------------------------------------------------
-    def gen(self, rng, n, tier):
+    def gen(self, rng, n, tier, focus=False):
         for i in range(n):
             r = rng.fork(i)
             gg = G.GrammarGen(r, links=False, comment_p=0.45, suppress=r.chance(0.3))
@@ -429,13 +826,32 @@ class Prop(Check):
             respell(g, rw)
             if rw.chance(0.15):
                 cfg = {"ws": "".join(ws_chars(rw))}
+            # structure of the whole set-up (own random stream): a sub-rule reached under two whitespace modes, the grammar spread over imported files with Comment
+            # rules of their own, meta-models created before / after the one under test in the same process
+            rs = r.fork("setup")
+            clash = rs.chance(0.6 if focus else 0.22) and add_clash(g, gg.kinds, rs)
+            lay = layout_files(g, rs, focus=focus and rs.chance(0.5))
+            g["comment"] = lay["comment_res"][0] if lay["comment_res"] else None
+            g["comment_alts"] = lay["comment_res"] if len(lay["comment_res"]) > 1 else None
             params = {rl["name"]: rl["params"] for rl in g["rules"] if rl.get("params")}
             # texts whose layout follows the mode in force at every token (otherwise grammars whose sets lack the
             # blank have hardly any accepted text with a non-empty gap), then blank / random layouts and a mutation
             aware = mode_texts(g, cfg, rw, 2 if (params or cfg) else 1)
             texts = aware + G.sentences(g, r, 3 - len(aware), 1)
-            yield {"grammar": G.render_grammar(g), "cfg": cfg, "texts": texts, "params": params,
-                   "comment": g.get("comment"), "vseed": r.next() % (1 << 30)}
+            case = {"grammar": lay["grammar"], "cfg": cfg, "texts": texts, "params": params,
+                    "comment": lay["comment"], "vseed": r.next() % (1 << 30)}
+            if lay["comment"]:
+                case["comment_samples"] = lay["comment_samples"]
+            if lay["imports"] or lay["from_file"]:
+                case.update(imports=lay["imports"], from_file=True)
+            case["files"], case["comment_owner"], case["foreign"] = lay["files"], lay["comment_owner"], lay["foreign"]
+            # a parser that memoizes reuses what it parsed under the other mode: histories with memoization=True
+            # go preferably with the grammars that can tell
+            if rs.chance(0.75 if (clash or focus) else 0.25):
+                case["history"] = gen_steps(rs, rs.randint(1, 2), texts, memo_p=0.65 if clash else 0.4)
+            if rs.chance(0.1):
+                case["later"] = gen_steps(rs, 1, texts)
+            yield case
 
     # ---- implementation --------------------------------------------------------------------------
     def variants(self, case, text, gaps, log, rng, comment_re):
@@ -443,7 +859,7 @@ class Prop(Check):
         n = len(text)
         scans = [(q, r, e, m) for (q, r, e, m, inc, _w) in log if not inc]
         cspans = [(r, e) for (_q, r, e, _m, inc, _w) in log if inc and e is not None and e > r]
-        has_eol = eol_in_grammar(case["grammar"])
+        has_eol = eol_in_grammar(case)
         out = []
         sites = []
         for gp in gaps:
@@ -484,16 +900,17 @@ class Prop(Check):
                 out.append((p, c1 if rng.chance(0.6) else c1 + rng.choice(cand), "ws"))
             if comment_re is not None and cand:
                 smp = rng.choice(case.get("comment_samples") or G.COMMENT_SAMPLES[case["comment"]])
-                body = smp.rstrip("\n ")
-                tail = smp[len(body):]
-                if all(ch in cand for ch in tail) or not tail:
-                    if not tail and case["comment"] in (r"#.*$", r"\/\/.*?$"):
-                        tail = "\n" if "\n" in cand else None
-                    if tail is not None:
-                        t2 = text[:p] + body + tail + text[p:]
-                        m = comment_re.match(t2, p)
-                        if m and m.end() - p == len(body):
-                            out.append((p, body + tail, "comment"))
+                ins = self.comment_insertion(smp, cand, comment_re, text, p)
+                if ins is not None:
+                    out.append((p, ins, "comment"))
+            # text matched by the Comment rule of another grammar file only (a file that is imported, but whose
+            # Comment rule is not the one found first): not a comment of this language (judged by sentence 2)
+            for rx in case.get("foreign") or []:
+                if cand and rng.chance(0.5):
+                    fre = re.compile(rx, re.MULTILINE)
+                    ins = self.comment_insertion(rng.choice(G.COMMENT_SAMPLES[rx]), cand, fre, text, p)
+                    if ins is not None and (comment_re is None or not comment_re.match(text[:p] + ins + text[p:], p)):
+                        out.append((p, ins, "foreign"))
             outside = [c for c in DEFAULT_WS if c not in ws_t]
             if outside and rng.chance(0.35):
                 out.append((p, rng.choice(outside), "outside"))
@@ -531,17 +948,39 @@ class Prop(Check):
                     seen.add((v[0], v[1]))
                     dst.append(v)
         # the sweep first, then a mix of the random ones (a comment, a whitespace string, something outside, …)
-        kinds = ["comment", "ws", "outside", "glued", "comment", "ws", "ws"]
+        kinds = ["comment", "ws", "foreign", "outside", "glued", "comment", "ws", "ws"]
         keep = []
         for k in kinds:
             v = next((v for v in rest if v[2] == k and v not in keep), None)
             if v is not None:
                 keep.append(v)
-        return head + keep[:max(3, MAX_VARIANTS - len(head))]
+        return head + keep[:max(4 if case.get("foreign") else 3, MAX_VARIANTS - len(head))]
+
+    @staticmethod
+    def comment_insertion(smp, cand, cre, text, p):
+        """the sample comment as it can be inserted at p: its line end / trailing blank must be skippable there
+        (a line comment needs a line end behind it), and `cre` must match exactly the comment at p"""
+        body = smp.rstrip("\n ")
+        tail = smp[len(body):]
+        if tail and not all(ch in cand for ch in tail):
+            return None
+        if not tail:
+            m = cre.match(body + "zz")
+            if m and m.end() > len(body):     # runs to the end of the line
+                if "\n" not in cand:
+                    return None
+                tail = "\n"
+        m = cre.match(text[:p] + body + tail + text[p:], p)
+        return body + tail if m and m.end() - p == len(body) else None
 
     def impl(self, case):
         use_repo()
+        reset_process_state()
+        for h in case.get("history") or []:
+            run_step(case, h)
         o = outcome(lambda: build(case))
+        for h in case.get("later") or []:
+            run_step(case, h)
         if "ok" not in o:
             return {"grammar_error": o}
         mm = o["ok"]
@@ -555,7 +994,7 @@ class Prop(Check):
         comment_re = re.compile(case["comment"], re.MULTILINE) if case.get("comment") else None
         rng = Rng(case.get("vseed", 0))
         res = {"nodes": nodes, "top": top, "comments": comments, "skipws": bool(p0.skipws), "ws": p0.ws,
-               "memo": bool(p0.memoization), "texts": []}
+               "memo": bool(p0.memoization), "comment_owner": comment_owner(mm, p0), "texts": []}
         expanded = 0
         for t in case["texts"]:
             d = {"text": t, "variants": []}
@@ -626,7 +1065,15 @@ class Prop(Check):
                          "memo": obs["memo"], "skipws": obs["skipws"], "ws": obs["ws"], "input": d["text"],
                          "toks": d["toks"], "fuel": fuel,
                          "exts": [{"p": v["p"], "ins": v["ins"], "toks": v["toks"]} for v in d["variants"]]})
-        return {"op": "multi", "reqs": reqs, "mods": [written_params(p) for p in case.get("params", {}).values()]}
+        req = {"op": "multi", "reqs": reqs, "mods": [written_params(p) for p in case.get("params", {}).values()]}
+        # set-up of the parser (Peg/Setup.lean): the grammar files as written -> the file whose Comment rule is in
+        # force; the configurations of the meta-models created before -> skipws / ws / memoization of this parser
+        if case.get("files"):
+            req["files"] = case["files"]
+        keys = ("skipws", "ws", "memoization", "debug")
+        req["cfg"] = {k: v for k, v in case["cfg"].items() if k in keys}
+        req["hist"] = [{k: v for k, v in h["cfg"].items() if k in keys} for h in case.get("history") or []]
+        return req
 
     @staticmethod
     def _same(real, model):
@@ -656,6 +1103,20 @@ class Prop(Check):
                     if m.get("rejected") or (nd.get("skipws"), as_set(nd.get("ws"))) != (m["skipws"], as_set(m["ws"])):
                         return (f"rule {name}: modifiers {written_params(case['params'][name])} compiled to "
                                 f"skipws={nd.get('skipws')}, ws={nd.get('ws')!r} but Peg.ruleMods gives {m}")
+        # set-up: Comment rule in force, parser configuration after the history
+        if "files" in case:
+            if "comment_owner" not in out:
+                return "model gave no comment_owner"
+            if out["comment_owner"] != obs.get("comment_owner"):
+                return (f"comments model of the parser is the Comment rule of file {obs.get('comment_owner')!r} but "
+                        f"Peg.commentOwner gives {out['comment_owner']!r} for {case['files']}")
+        pc = out.get("pcfg")
+        if pc is None:
+            return "model gave no parser configuration"
+        if (pc["skipws"], pc["ws"], pc["memo"]) != (obs["skipws"], obs["ws"], obs["memo"]):
+            return (f"parser of a meta-model configured with {case['cfg']} after the history "
+                    f"{[h['cfg'] for h in case.get('history') or []]} has skipws={obs['skipws']}, ws={obs['ws']!r}, "
+                    f"memoization={obs['memo']} but Peg.parserCfgAfter gives {pc}")
         ds = [d for d in obs["texts"] if "toks" in d]
         if len(ds) != len(out["outs"]):
             return "answer count mismatch"
@@ -725,6 +1186,9 @@ class Prop(Check):
 
     def sample_view(self, case, obs):
         v = {"grammar": case["grammar"], "cfg": case["cfg"]}
+        for k in ("imports", "history", "later"):
+            if case.get(k):
+                v[k] = case[k]
         if "texts" in obs:
             v["texts"] = [{"text": d["text"], "load": str(d.get("load"))[:100],
                            "variants": [[x["p"], x["ins"], x["kind"], x["hyp"], x["load"] == d["load"]] for x in d["variants"]]}
@@ -747,6 +1211,16 @@ class Prop(Check):
                 "variants_inside_C22_partial_ws": lean_ok,
                 "grammar_errors": sum(1 for o in obs if "grammar_error" in o),
                 "grammars_with_comment": sum(1 for c in cases if c.get("comment")),
+                "grammars_with_imports": sum(1 for c in cases if c.get("imports")),
+                "grammars_from_file": sum(1 for c in cases if c.get("from_file")),
+                "grammars_with_foreign_comment_rule": sum(1 for c in cases if c.get("foreign")),
+                "comment_in_force_from_import": sum(1 for c in cases if c.get("comment_owner") not in (None, "main")),
+                "cases_with_history": sum(1 for c in cases if c.get("history")),
+                "cases_with_memoizing_history": sum(1 for c in cases if any(h["cfg"].get("memoization")
+                                                                            for h in c.get("history") or [])),
+                "cases_with_later_metamodels": sum(1 for c in cases if c.get("later")),
+                "grammars_with_mode_clash": sum(1 for c in cases if "EntryC" in c["grammar"] or
+                                                any("EntryC" in t for t in (c.get("imports") or {}).values())),
                 "grammars_with_modifiers": sum(1 for c in cases if c.get("params")),
                 "ws_modifiers": sum(1 for c in cases for p in c.get("params", {}).values() if "ws" in p),
                 "ws_modifiers_by_escape": {e: sum(1 for c in cases for p in c.get("params", {}).values()
@@ -762,4 +1236,10 @@ class Prop(Check):
                 yield dict(case, texts=[t])
 
     def extra_search(self, rng, tier, broken):
-        return list(self.gen(rng, 150 if tier == "quick" else 1500, tier))
+        # first the set-ups that depend on more than one grammar / meta-model (imports with several Comment rules,
+        # mode clashes after a history), then the ordinary mix
+        n = 150 if tier == "quick" else 1500
+        for c in self.gen(rng.fork("focus"), n, tier, focus=True):
+            yield c
+        for c in self.gen(rng, n, tier):
+            yield c
